@@ -143,7 +143,13 @@ pub fn response(framing: Framing, payload: &[u8], chunks: &[usize], deco: Deco, 
             wire = head("200 OK", &[("Content-Length", &cl)]);
         }
         Framing::Chunked => {
-            wire = head("200 OK", &[("Transfer-Encoding", "chunked")]);
+            // the coding name is case-insensitive: two decorations also vary its spelling (same length)
+            let te = match deco {
+                Deco::Upper => "CHUNKED",
+                Deco::LeadingZeros => "Chunked",
+                _ => "chunked",
+            };
+            wire = head("200 OK", &[("Transfer-Encoding", te)]);
         }
         Framing::Close => {
             wire = head("200 OK", &[("X-Pad", "1")]);
